@@ -2,7 +2,7 @@
 (***************************************************************************)
 (* Validation of recorded executions of the RIPscrip lexer (C20).            *)
 (* Events (harness/src/rip.rs): reset{case}, ch{c, r, us, tag, lvl, ps, hc,  *)
-(* cnt, rec, [cls], [site]} - one per character fed to a real rip::Parser,   *)
+(* cnt, rec, mv, [cls], [site]} - one per character fed to a real rip::Parser,   *)
 (* with the lexer snapshot taken AFTER the character and the RIP text of the *)
 (* commands it executed - and crash{kind, msg} written by the orchestrator   *)
 (* for a case that killed or stalled the worker.                             *)
@@ -24,6 +24,7 @@ Init == l = 1 /\ st = InitSt /\ InitRegs
 Matches(x, e) == /\ x.st.tag = e.tag /\ x.st.lvl = e.lvl /\ x.st.ps = e.ps /\ x.st.hc = (e.hc = 1) /\ x.st.cnt = e.cnt
                  /\ (x.exec = e.rec \/ (x.exec = <<<<63>>>> /\ Len(e.rec) = 1))
                  /\ (x.res = "any" \/ x.res = e.r)
+                 /\ (CaretMoves(st, x) = 2 \/ CaretMoves(st, x) = e.mv)      \* text goes to the fallback parser exactly when the model says so
 \* adopt what the hook shows; the command under assembly is unknown (0) unless the model agrees that parameters are being read
 Adopt(x, e) == [x.st EXCEPT !.tag = e.tag, !.lvl = e.lvl, !.ps = e.ps, !.hc = (e.hc = 1), !.cnt = e.cnt,
                             !.cmd = IF InParams(x.st) THEN @ ELSE 0,
@@ -31,8 +32,8 @@ Adopt(x, e) == [x.st EXCEPT !.tag = e.tag, !.lvl = e.lvl, !.ps = e.ps, !.hc = (e
 Summary(s) == [tag |-> s.tag, lvl |-> s.lvl, ps |-> s.ps, hc |-> s.hc, cnt |-> s.cnt, cmd |-> s.cmd, ansi |-> s.ansi, rip |-> s.rip, susp |-> s.susp]
 ModelPart(x, same, e) ==
   /\ Bump(10) /\ BumpBy(11, Len(e.rec))
-  /\ Expect(same, "rip-step", l, [c |-> e.c, before |-> Summary(st), expected |-> Summary(x.st), exec |-> x.exec, res |-> x.res,
-                                  got |-> [tag |-> e.tag, lvl |-> e.lvl, ps |-> e.ps, hc |-> e.hc, cnt |-> e.cnt, rec |-> e.rec, r |-> e.r]])
+  /\ Expect(same, "rip-step", l, [c |-> e.c, before |-> Summary(st), expected |-> Summary(x.st), exec |-> x.exec, res |-> x.res, fed |-> x.fed,
+                                  got |-> [tag |-> e.tag, lvl |-> e.lvl, ps |-> e.ps, hc |-> e.hc, cnt |-> e.cnt, rec |-> e.rec, r |-> e.r, mv |-> e.mv]])
   /\ st' = IF same THEN x.st ELSE Adopt(x, e)
 WithExp(x, e) == ModelPart(x, Matches(x, e), e)
 \* outside the modelled part of the fallback parser: follow the recording; a '!' that starts a RIP sequence shows that it is
